@@ -709,9 +709,11 @@ var vfClauses = []vrClause{
 	},
 	{
 		Prop: "C18", Name: "stop",
-		Bound: "exhaustive: all byte strings over {'>',LF,CR,'A'} of length <=4 (thorough <=5) and a corpus of well-formed files (up to 12 records) x every stop position 0..N+1, for Reader and File; File on a missing path stopped at its error item; then random data x every stop",
+		Bound: "exhaustive: all byte strings over {'>',LF,CR,'A'} of length <=4 (thorough <=5) and a corpus of well-formed files (up to 12 records) x every stop position 0..N+1, for Reader and File; File on a missing path stopped at its error item; " +
+			"failing underlying reader (Reader only): 5 small well-formed files of the corpus x every fault offset 0..len x {fails once then EOF, fails forever} x every stop position 0..N+1 (N = items of the uninterrupted run with that fault); then random data x every stop (no fault)",
 		Rule: "consumer returns false at item number stop: no further callback, no panic, items seen = first stop items of the uninterrupted run; in the uninterrupted run an error item is the last item. " +
-			"Checked for Reader(bytes) and for File(temp file)",
+			"Checked for Reader(bytes) and for File(temp file); with \"fault\" >= 0 instead for Reader over a reader that delivers data[:fault] and then fails with a non-EOF error (\"forever\": every time, else once and then io.EOF), " +
+			"a fresh such reader for the uninterrupted and for the stopped run",
 		Gen: vfGenStop,
 		Run: vfRunStop,
 	},
@@ -1531,6 +1533,20 @@ func vfRunStop(in map[string]any) vrResult {
 	data := vfBytes(in["data"])
 	stop := vrInt(in["stop"])
 	limit := len(data) + 10
+	if v, ok := in["fault"]; ok && v != nil && vrInt(v) >= 0 {
+		// failing underlying reader: delivers data[:fault], then a non-EOF error
+		// (once and then io.EOF, or forever). Reader only; gz and missing do not apply.
+		off := vrInt(v)
+		if off > len(data) {
+			off = len(data)
+		}
+		forever := vrBool(in["forever"])
+		what := fmt.Sprintf("Reader(reader failing after %d of %d bytes, forever=%v)", off, len(data), forever)
+		res, _ := vfCheckStop(what, func() iter.Seq2[*Fasta, error] {
+			return Reader(&vfFaultReader{data: data[:off], forever: forever})
+		}, stop, limit)
+		return res
+	}
 	dir := vfTempDir()
 	defer os.RemoveAll(dir)
 	if vrBool(in["missing"]) {
@@ -1583,6 +1599,27 @@ func vfGenStop(g *vrGen) {
 		maxL = 5
 	}
 	ok = ok && vrWords(vfAlphabet, maxL, func(w []byte) bool { return allStops(w, false) })
+	// failing underlying reader: every fault offset x {once, forever} x every stop position
+	allFaultStops := func(d []byte) bool {
+		enc := vrB(d)
+		for off := 0; off <= len(d); off++ {
+			for _, forever := range []bool{false, true} {
+				items, _ := vfAll(Reader(&vfFaultReader{data: d[:off], forever: forever}), len(d)+10)
+				for stop := 0; stop <= len(items)+1; stop++ {
+					if g.Expired() {
+						complete = false
+						return false
+					}
+					g.Case(map[string]any{"data": enc, "stop": stop, "fault": off, "forever": forever})
+				}
+			}
+		}
+		return true
+	}
+	wf := vfWellFormed()
+	for _, d := range [][]byte{wf[0], wf[3], wf[4], wf[7], wf[9]} {
+		ok = ok && allFaultStops(d)
+	}
 	g.Exhaustive(complete && ok)
 	for used := 0; !g.Expired() && used < vfMaxRandBytes; {
 		d := vfRandData(g.Rand)
